@@ -74,10 +74,12 @@ func encList(xs []string) string {
 
 func main() {
 	ex.Header("C36")
-	pkgs := exg.Load(false, "./servers", "./servers/httpjsonrpc", "./utils/http/jsonrpc")
+	pkgs := exg.Load(false, "./servers", "./servers/httpjsonrpc", "./utils/http/jsonrpc", "./servers/httprestful", "./servers/httpwebsocket")
 	sv := exg.Pkg(pkgs, "servers")
 	hj := exg.Pkg(pkgs, "servers/httpjsonrpc")
 	uj := exg.Pkg(pkgs, "utils/http/jsonrpc")
+	hr := exg.Pkg(pkgs, "servers/httprestful")
+	hw := exg.Pkg(pkgs, "servers/httpwebsocket")
 
 	ex.Comment("service levels (common/config): name ↦ value, and what RPCServiceLevelFromString maps names to")
 	names := []string{"ConfigurationPermitted", "MiningPermitted", "TransactionPermitted", "WalletPermitted", "QueryOnly", "", "queryonly", "Unknown"}
@@ -131,6 +133,75 @@ func main() {
 	ex.Comment("httpjsonrpc.StartRPCServer: mainMux[method] = handler, with the handler's gate and call closure")
 	fmt.Printf("/-! Names are encoded as numbers (the bytes of the name, big-endian: `RpcAccess.enc`) because the\n    kernel compares numbers fast and strings slowly; the readable name is in the comment of each row. -/\n")
 	fmt.Printf("structure Row where\n  method : Nat\n  handler : Nat\n  /-- first argument of checkRPCServiceLevel, if the handler has the refusal `if` -/\n  gate : Option Nat\n  /-- index of that `if` among the handler's top-level statements -/\n  gateAt : Nat\n  /-- functions outside the standard library the handler statically reaches through helpers of package servers -/\n  calls : List Nat\n  deriving DecidableEq, Repr\n\n")
+	mkRow := func(m, h string) string {
+		g, at := "none", 0
+		calls := map[string]bool{}
+		if fd := decls[h]; fd != nil {
+			if i, v := gate(sv, fd); i >= 0 {
+				g, at = "(some "+v+")", i
+			}
+			closure(h, map[string]bool{}, calls)
+		}
+		var cs []string
+		for c := range calls {
+			// keep module functions/methods and third-party ones; drop the standard library
+			if strings.Contains(c, ".") && !strings.Contains(strings.SplitN(strings.TrimLeft(c, "(*"), ".", 2)[0], "/") &&
+				!strings.HasPrefix(c, "servers.") && !strings.HasPrefix(c, "(") {
+				continue // std package function such as fmt.Sprint, strconv.Itoa
+			}
+			cs = append(cs, c)
+		}
+		sort.Strings(cs)
+		var encs []string
+		for _, c := range cs {
+			encs = append(encs, enc(c))
+		}
+		return fmt.Sprintf("  -- %s -> %s; calls %s\n  { method := %s, handler := %s, gate := %s, gateAt := %d,\n    calls := [%s] }", m, h, strings.Join(cs, ", "), enc(m), enc(h), g, at, strings.Join(encs, ", "))
+	}
+	// name → handler entries of a map composite literal (REST: Action{name:, handler:}; websocket: handler directly)
+	frontTable := func(p *packages.Package, fn string) []string {
+		var rows []string
+		ast.Inspect(exg.FuncDecl(p, fn), func(x ast.Node) bool {
+			cl, ok := x.(*ast.CompositeLit)
+			if !ok {
+				return true
+			}
+			if _, isMap := p.TypesInfo.Types[cl].Type.Underlying().(*types.Map); !isMap {
+				return true
+			}
+			for _, el := range cl.Elts {
+				kv, ok := el.(*ast.KeyValueExpr)
+				if !ok {
+					continue
+				}
+				key, _ := exg.ConstString(p, kv.Key)
+				var hexpr ast.Expr = kv.Value
+				if inner, ok := kv.Value.(*ast.CompositeLit); ok {
+					for _, f := range inner.Elts {
+						if fkv, ok := f.(*ast.KeyValueExpr); ok && exg.Src(p, fkv.Key) == "handler" {
+							hexpr = fkv.Value
+						}
+					}
+				}
+				var id *ast.Ident
+				switch r := hexpr.(type) {
+				case *ast.Ident:
+					id = r
+				case *ast.SelectorExpr:
+					id = r.Sel
+				}
+				h := "?" + exg.Src(p, hexpr)
+				if id != nil {
+					if f, ok := p.TypesInfo.Uses[id].(*types.Func); ok {
+						h = exg.FuncName(f)
+					}
+				}
+				rows = append(rows, mkRow(key, h))
+			}
+			return false
+		})
+		return rows
+	}
 	start := exg.FuncDecl(hj, "StartRPCServer")
 	var tbl []string
 	ast.Inspect(start.Body, func(x ast.Node) bool {
@@ -159,32 +230,34 @@ func main() {
 				h = exg.FuncName(fn)
 			}
 		}
-		g, at := "none", 0
-		calls := map[string]bool{}
-		if fd := decls[h]; fd != nil {
-			if i, v := gate(sv, fd); i >= 0 {
-				g, at = "(some "+v+")", i
-			}
-			closure(h, map[string]bool{}, calls)
-		}
-		var cs []string
-		for c := range calls {
-			// keep module functions/methods and third-party ones; drop the standard library
-			if strings.Contains(c, ".") && !strings.Contains(strings.SplitN(strings.TrimLeft(c, "(*"), ".", 2)[0], "/") &&
-				!strings.HasPrefix(c, "servers.") && !strings.HasPrefix(c, "(") {
-				continue // std package function such as fmt.Sprint, strconv.Itoa
-			}
-			cs = append(cs, c)
-		}
-		sort.Strings(cs)
-		var encs []string
-		for _, c := range cs {
-			encs = append(encs, enc(c))
-		}
-		tbl = append(tbl, fmt.Sprintf("  -- %s -> %s; calls %s\n  { method := %s, handler := %s, gate := %s, gateAt := %d,\n    calls := [%s] }", m, h, strings.Join(cs, ", "), enc(m), enc(h), g, at, strings.Join(encs, ", ")))
+		tbl = append(tbl, mkRow(m, h))
 		return true
 	})
 	fmt.Printf("def rpcTable : List Row := [\n%s\n]\n\n", strings.Join(tbl, ",\n"))
+
+	ex.Comment("the other front ends call the same handlers: REST routes (GET and POST maps) and websocket actions")
+	fmt.Printf("def restTable : List Row := [\n%s\n]\n\n", strings.Join(frontTable(hr, "restServer.initializeMethod"), ",\n"))
+	fmt.Printf("def wsTable : List Row := [\n%s\n]\n\n", strings.Join(frontTable(hw, "Server.initMethods"), ",\n"))
+
+	ex.Comment("method sets of the p2p server interfaces the handlers can reach (names as in the call lists)")
+	var ifaceMethods []string
+	for _, ip := range sv.Types.Imports() {
+		for _, want := range [][2]string{{exg.Module + "/p2p/server", "IServer"}, {exg.Module + "/elanet", "Server"}} {
+			if ip.Path() != want[0] {
+				continue
+			}
+			if tn, ok := ip.Scope().Lookup(want[1]).(*types.TypeName); ok {
+				if it, ok := tn.Type().Underlying().(*types.Interface); ok {
+					for i := 0; i < it.NumMethods(); i++ {
+						ifaceMethods = append(ifaceMethods, exg.FuncName(it.Method(i)))
+					}
+				}
+			}
+		}
+	}
+	sort.Strings(ifaceMethods)
+	ex.Comment("%s", strings.Join(ifaceMethods, ", "))
+	fmt.Printf("def p2pServerMethods : List Nat := %s\n\n", encList(ifaceMethods))
 
 	ex.Comment("order of the statically resolved calls in the two request handlers")
 	hc, sc := exg.StaticCalls(hj, exg.FuncDecl(hj, "Handle")), exg.StaticCalls(uj, exg.FuncDecl(uj, "Server.ServeHTTP"))
